@@ -88,6 +88,10 @@ class SafeText:
         if target is None or not call.args:
             return None
         st = self.summary.get(target.key)
+        if target.key == fn.key:
+            # self-recursion on the text: assume the property for the recursive call (partial correctness - if the call returns,
+            # it returns its argument or a validated text - termination is C04 R4.c's business); the other returns decide
+            st = SAFE
         if st is None:
             return None
         arg = self.text_arg(call, target) if target is not self.func_chain and target is not self.wrapper else call.args[0]
@@ -106,6 +110,11 @@ class SafeText:
             ok, _ = pa.holds_at(at, lambda w: Lit(f"valid({w.token(e.id)})"))
             if ok and pa.reached(at):
                 return VALID
+            if e.id == p:
+                # flow-sensitive: the parameter read while it still holds the value it was called with (`original = source` at the top)
+                worlds = pa.worlds_at(at)
+                if worlds and all(w.token(p) == f"{p}#0" for w in worlds):
+                    return PARAM
             return env.get(e.id, UNKNOWN)
         if isinstance(e, ast.IfExp):
             return join(self.expr_status(e.body, fn, env, at), self.expr_status(e.orelse, fn, env, at))
@@ -259,6 +268,9 @@ def check(prog: Program, tier: str) -> Result:
     st.solve(todo)
     # a nested @processing.fix function (pattern_matching.subn.fix_func) is called through the wrapper
     for fn in pipeline_fns:
+        if fn.node.returns is not None and norm(fn.node.returns) in ("bool", "int"):
+            res.ok("R3.3", fn.loc(), fn.fq, f"pipeline stage {fn.fq}", f"answers a {norm(fn.node.returns)}, not a text: not an editor", trivial=True)
+            continue
         s = st.summary.get(st.wrapper.key) if (fn.is_fix and st.wrapper) else st.summary.get(fn.key, UNKNOWN)
         kind = "scheduled (through processing.fix wrapper)" if fn.is_fix else "direct"
         if s in (PARAM, VALID, SAFE):
